@@ -12,7 +12,7 @@ import time
 
 import z3
 
-PROVE_TIMEOUT_MS = int(os.environ.get("PYVC_TIMEOUT_MS", "20000"))
+PROVE_TIMEOUT_MS = int(os.environ.get("PYVC_TIMEOUT_MS", "12000"))
 
 
 class Result:
@@ -40,8 +40,20 @@ def discharge(hyps, goal, timeout_ms=None, want_model=False, portfolio=True):
     if z3.is_true(g):
         return Result("proved", "simplifier", 0.0)
     t0 = time.time()
-    # first attempt: E-matching only (all proofs here are instantiation proofs; MBQI only slows them)
-    s = _solver(hyps, goal, min(timeout_ms, 10000))
+    # first attempt for VCs with nonlinear terms: nonlinear products abstracted by an uninterpreted function (sound for `unsat`:
+    # the abstraction only weakens the theory); decides goals that hold by congruence
+    if _has_nonlinear(goal) or any(_has_nonlinear(h) for h in hyps):
+        cache = {}
+        s3 = z3.Solver()
+        s3.set("timeout", min(timeout_ms, 5000))
+        s3.set("smt.mbqi", False)
+        for h in hyps:
+            s3.add(abstract_products(h, cache))
+        s3.add(z3.Not(abstract_products(goal, cache)))
+        if s3.check() == z3.unsat:
+            return Result("proved", "z3-5.1/products-abstracted", time.time() - t0)
+    # next attempt: E-matching only (all proofs here are instantiation proofs; MBQI only slows them)
+    s = _solver(hyps, goal, min(timeout_ms, 8000))
     s.set("smt.mbqi", False)
     r = s.check()
     if r == z3.unsat:
@@ -107,3 +119,65 @@ def satisfiable(hyps, timeout_ms=5000):
         s.add(h)
     r = s.check()
     return {z3.sat: "sat", z3.unsat: "unsat"}.get(r, "unknown")
+
+
+_MULU = z3.Function("mul!abs", z3.RealSort(), z3.RealSort(), z3.RealSort())
+_MULI = z3.Function("mul!absi", z3.IntSort(), z3.IntSort(), z3.IntSort())
+
+
+def _is_num(e):
+    return z3.is_int_value(e) or z3.is_rational_value(e)
+
+
+def _has_nonlinear(e):
+    seen = set()
+    todo = [e]
+    while todo:
+        x = todo.pop()
+        i = x.get_id()
+        if i in seen:
+            continue
+        seen.add(i)
+        if z3.is_quantifier(x):
+            todo.append(x.body())
+            continue
+        if z3.is_app_of(x, z3.Z3_OP_MUL) and sum(0 if _is_num(c) else 1 for c in x.children()) >= 2:
+            return True
+        todo.extend(x.children())
+    return False
+
+
+def abstract_products(e, cache):
+    """replace every product of >= 2 non-numeral factors by nested applications of an uninterpreted
+    binary function (argument order preserved)"""
+    i = e.get_id()
+    if i in cache:
+        return cache[i]
+    if z3.is_quantifier(e):
+        body = abstract_products(e.body(), cache)
+        vs = [(e.var_name(j), e.var_sort(j)) for j in range(e.num_vars())]
+        # rebuild with the same bound variables (de Bruijn indices are untouched by the rewrite)
+        names = [z3.Const(n, srt) for n, srt in vs]
+        inst = z3.substitute_vars(body, *reversed(names))
+        out = z3.ForAll(names, inst) if e.is_forall() else z3.Exists(names, inst)
+        cache[i] = out
+        return out
+    if not z3.is_app(e) or e.num_args() == 0:
+        cache[i] = e
+        return e
+    args = [abstract_products(c, cache) for c in e.children()]
+    if z3.is_app_of(e, z3.Z3_OP_MUL):
+        nums = [a for a in args if _is_num(a)]
+        rest = [a for a in args if not _is_num(a)]
+        if len(rest) >= 2:
+            f = _MULU if z3.is_real(e) else _MULI
+            acc = rest[0]
+            for r in rest[1:]:
+                acc = f(acc, r)
+            for nmb in nums:
+                acc = nmb * acc
+            cache[i] = acc
+            return acc
+    out = e.decl()(*args)
+    cache[i] = out
+    return out
